@@ -9,7 +9,6 @@ import (
 	"runtime"
 	"sort"
 	"strings"
-	"sync/atomic"
 	"time"
 
 	"simrt"
@@ -23,9 +22,9 @@ type Case struct {
 	Entity   string           `json:"entity,omitempty"`
 	Cfg      []int            `json:"cfg,omitempty"`
 	Scale    int              `json:"scale,omitempty"`
-	Variant  int              `json:"variant,omitempty"` // non-period parameters scaled by variantFactor[Variant]
+	Variant  int              `json:"variant,omitempty"`    // non-period parameters scaled by variantFactor[Variant]
 	Procs    int              `json:"gomaxprocs,omitempty"` // GOMAXPROCS of the process that found it (replay sets it again)
-	Pause    int              `json:"pause,omitempty"`   // seconds of simulated time the harness's consumers let pass before their 2nd, 5th and 11th receive and its producers before their 3rd and 7th send
+	Pause    int              `json:"pause,omitempty"`      // seconds of simulated time the harness's consumers let pass before their 2nd, 5th and 11th receive and its producers before their 3rd and 7th send
 	Lens     []int            `json:"lens,omitempty"`
 	Shape    int              `json:"shape,omitempty"`
 	DataSeed int64            `json:"data_seed,omitempty"`
@@ -570,15 +569,11 @@ var pausable = map[string]bool{"C02": true, "C03": true, "C04": true, "C05": tru
 
 var (
 	consPause time.Duration
-	consCount atomic.Int64
-	prodCount atomic.Int64
 )
 
 // runCase runs one case with its consumer pacing installed.
 func runCase(ck Check, c *Case, st *Stats) []Violation {
 	consPause = time.Duration(c.Pause) * time.Second
-	consCount.Store(0)
-	prodCount.Store(0)
 	defer func() { consPause = 0 }()
 	if c.Pause > 0 {
 		st.Faults["slow-consumer-and-producer(simulated-seconds-between-values)"]++
@@ -590,7 +585,7 @@ func runCase(ck Check, c *Case, st *Stats) []Violation {
 // time pass first (library timers that fall due fire meanwhile).
 func consYield() {
 	if consPause > 0 {
-		switch consCount.Add(1) {
+		switch simrt.TaskCount(0) {
 		case 2, 5, 11:
 			simrt.Sleep(-30, consPause)
 		}
@@ -602,7 +597,7 @@ func consYield() {
 // producer lets simulated time pass before its 3rd and 7th value.
 func prodYield() {
 	if consPause > 0 {
-		switch prodCount.Add(1) {
+		switch simrt.TaskCount(1) {
 		case 3, 7:
 			simrt.Sleep(-31, consPause)
 		}
